@@ -369,6 +369,7 @@ pub fn generate(thorough: bool, seed: u64, out: &mut dyn Write) {
     let t0 = target(0);
     // file operations on paths with blanks, punctuation, control characters
     generate_odd(thorough, seed, out);
+    generate_blocked_targets(thorough, out);
     // bounded-exhaustive: all sequences of length <= 2 on every start tree, length 3 (quick) on one
     // start tree each / (thorough) on every start tree; every sequence starts with a TargetInfo
     for (ti, tree) in TREES.iter().enumerate() {
@@ -471,6 +472,38 @@ pub fn generate(thorough: bool, seed: u64, out: &mut dyn Write) {
 /// "ASCII relative paths".  Bounded-exhaustive: every sequence of length ≤ 2 over AddFile / DeleteFile /
 /// MakeDirTree / RemoveAll on every odd path of the pool, on the empty tree and on a tree that holds
 /// every odd file (quick: a third of the pairs, on one of the two trees each).
+/// AddFile whose target cannot be opened (a directory stands at its path): the command is
+/// skipped, but its data blocks still have to be consumed so that the chunks behind it are applied.
+fn generate_blocked_targets(thorough: bool, out: &mut dyn Write) {
+    let tree = "d0/d1/;f0:~40.22;sqpack/ffxiv/040000.win32.dat0:~300.20;sqpack/ex1/ex1.ver:323031322e30312e30312e303030302e30303030;ffxivboot.ver:31";
+    let blocked: Vec<String> = vec![
+        "FA:0:0:d0:r~100.5".into(),
+        "FA:0:0:d0/d1:r~100.5;r~200.6".into(),
+        format!("FA:0:0:d0/d1:r~16.1;{};r~40.2", zblock(300, 3)),
+        format!("FA:64:0:sqpack/ffxiv:{}", zblock(900, 4)),
+        "FA:0:0:d0/d1:r~15984.7;r~1.8".into(),
+    ];
+    let follow: Vec<String> = vec![
+        "FA:0:0:f1.bin:r~50.7".into(),
+        format!("FA:8:0:f0:{};r~3.9", zblock(120, 10)),
+        "A:4:0:0:1:1:~256.11".into(),
+        "E:4:256:1:2:2".into(),
+        "FD:0:f0".into(),
+        "FM:0:d2/d3".into(),
+        "H:D:V:4:0:0:~1024.4".into(),
+    ];
+    for (i, b) in blocked.iter().enumerate() {
+        for (j, f) in follow.iter().enumerate() {
+            if !thorough && (i + j) % 2 == 1 {
+                continue;
+            }
+            let api = ["zipatch", "boot", "game"][(i + j) % 3];
+            writeln!(out, "apply api={} tree={} cmds=T:0:65535:0:1:0:0,{},{}", api, tree, b, f).unwrap();
+            writeln!(out, "apply api={} tree={} cmds=T:0:65535:0:1:0:0,{},{},{}", api, tree, f, b, f).unwrap();
+        }
+    }
+}
+
 fn generate_odd(thorough: bool, seed: u64, out: &mut dyn Write) {
     let mut al: Vec<String> = vec![];
     for (i, f) in ODD_FILES.iter().enumerate() {
